@@ -90,6 +90,8 @@ ASSUMPTIONS = [
     "no wildcard form in 'late' histories",
     "repeated names: a class may have the name of a class in another module (also of its own base, which is then reached through a renamed import or a dotted "
     "path, never by the bare same name - docs, limitation 2: `class SomeClass(SomeClass)` is not supported statically); no wildcard form between the two distributions",
+    "module names: default m<k>; a third of the multi-module cases use names where the importing module's name is a string prefix of the imported module's name "
+    "(mz / mz_x / mz_x_x, m1 / m10 / m100), all legal identifiers, never combined with the repeated-name (twin) layouts",
     "import forms only reach classes defined in the named module (re-export chains use renamed from-imports); module and member names never collide",
 ]
 EXHAUSTIVE = True
@@ -613,6 +615,13 @@ def describe(case, expect):
             classes.add("pkg:classes-judged-through-aliases")
             if _LAST[2][1]:
                 classes.add("pkg:classes-judged-through-aliases:2+hops")
+        if case.get("modnames"):
+            classes.add("pkg:module-name-is-prefix-of-sibling-module-name")
+            if any(
+                isinstance(b, int) and H.mod_path(case, case["mods"][b]).startswith(H.mod_path(case, case["mods"][i])) and case["mods"][b] != case["mods"][i]
+                for i, bs in enumerate(case["bases"]) for b in bs
+            ):
+                classes.add("pkg:module-name-is-prefix-of-sibling-module-name:base-imported-from-it")
         lib = case.get("lib")
         if lib:
             classes.add(f"pkg:two-distributions:{lib['style']}:{'twin-names' if case.get('clsnames') else 'unique-names'}")
